@@ -182,6 +182,10 @@ def examine_point(ck: Check, system, idx: int, label: str, exact=None, rnd=None)
         T[1, 1] = T[4, 4] = w1
         T[2, 2] = T[5, 5] = w2
         tr.obs("normal_form", float(np.max(np.abs(M - T))) / max(1.0, lam))
+        # the same with the Hessian taken from the Jacobian of the field at the point instead of the library's c2
+        Hx = H.copy()
+        Hx[:3, :3] = np.diag([1.0, 1.0, 0.0]) - A[3:6, 0:3]
+        tr.obs("normal_form", float(np.max(np.abs(C.T @ Hx @ C - T))) / max(1.0, lam, abs(c2)))
     else:
         sq = math.sqrt(3) / 2
         tr.obs("position_vs_exact", max(abs(pos[0] - (0.5 - mu)), abs(pos[1] - (sq if idx == 4 else -sq)), abs(pos[2])))
@@ -194,6 +198,15 @@ def examine_point(ck: Check, system, idx: int, label: str, exact=None, rnd=None)
             C, Cinv = tr.read("normal_form", lambda: L.normal_form_transform)
             J = np.block([[np.zeros((3, 3)), np.eye(3)], [-np.eye(3), np.zeros((3, 3))]])
             tr.obs("symplectic", float(np.max(np.abs(C.T @ J @ C - J))))
+            tr.obs("symplectic", float(np.max(np.abs(C @ Cinv - np.eye(6)))))
+            # C^T Hess(H2) C = diag(w1, w2, wz, w1, w2, wz): the Hessian of the quadratic Hamiltonian is taken from the
+            # (C01-verified) Jacobian of the field AT THE POINT, not from the service's own offset parameter `a`
+            Hx = np.zeros((6, 6))
+            Hx[3:, 3:] = np.eye(3)
+            Hx[1, 3] = Hx[3, 1] = 1.0
+            Hx[0, 4] = Hx[4, 0] = -1.0
+            Hx[:3, :3] = np.diag([1.0, 1.0, 0.0]) - A[3:6, 0:3]
+            tr.obs("normal_form", float(np.max(np.abs(C.T @ Hx @ C - np.diag([w1, w2, wz, w1, w2, wz])))))
     # second round of reads: memoisation must return identical values without recomputation
     tr.read("position", lambda: L.position)
     if idx <= 3:
